@@ -516,3 +516,16 @@ package astisub
 //@   ensures [no-error] e1 == nil && e2 == nil
 //@   ensures [progress-bounds] 0 <= a1 && a1 <= len(data) && 0 <= a2 && a2 <= len(more)
 //@ end
+
+// readNBytes against the ghost byte stream of the reader (see contracts/extern.gvc):
+// whatever the delivery schedule, it returns exactly the next c bytes of the stream
+// whenever they exist and the reader does not fail; io.EOF only at a clean end.
+//@ func readNBytes(i io.Reader, c int) (o []byte, err error)
+//@   prop C17 C18
+//@   requires c > 0 && i != nil
+//@   ensures [bytes] err == nil ==> len(o) == c && i.pos == old(i.pos) + c && (forall k int :: 0 <= k && k < c ==> o[k] == uf_streamAt(ref(i), old(i.pos) + k))
+//@   ensures [complete] !i.failed && old(i.slen - i.pos) >= c ==> err == nil
+//@   ensures [clean-eof] err == io.EOF ==> i.pos == old(i.pos) && old(i.pos) == i.slen
+//@   ensures [fault-reported] !old(i.failed) && i.failed ==> err != nil && err != io.EOF
+//@   assigns ghost(pos), ghost(failed)
+//@ end
